@@ -333,3 +333,49 @@ def param_not_mutated(relpath, qualname, param, typ, prop, clause, callee_summar
     return dict(name=name, status="discharged", backend="frame(ast)", time_s=time.time() - t0,
                 reason=f"no store, in-place operator or mutator call reaches the caller's `{param}`", property_level=False,
                 function=fi.describe())
+
+
+def recorded_key_is_stored_key(relpath, qualname, record_var, container, prop, clause):
+    """Obligation (rollback records address what was written): in the function, the key appended to the record path
+    (`record_var = record_var + (K,)`) is the very name K used in every store / membership test on `container`
+    (`container[K] = ...`, `K in container`, `container[K]`), and K is not rebound in between."""
+    t0 = time.time()
+    name = f"{prop}/{qualname}/{clause}"
+    try:
+        fi = extract.load_module(relpath).function(qualname)
+    except extract.ExtractError as e:
+        return dict(name=name, status="undecided", reason=str(e), property_level=False, backend="frame")
+    appended, used, problems = [], [], []
+    for n in ast.walk(fi.node):
+        if isinstance(n, ast.Assign) and len(n.targets) == 1 and isinstance(n.targets[0], ast.Name) and n.targets[0].id == record_var \
+                and isinstance(n.value, ast.BinOp) and isinstance(n.value.op, ast.Add) and isinstance(n.value.right, ast.Tuple) \
+                and len(n.value.right.elts) == 1:
+            k = n.value.right.elts[0]
+            appended.append((n.lineno, ast.unparse(k), isinstance(k, ast.Name)))
+        if isinstance(n, ast.Subscript) and isinstance(n.value, ast.Name) and n.value.id == container:
+            used.append((n.lineno, ast.unparse(n.slice), isinstance(n.slice, ast.Name)))
+        if isinstance(n, ast.Compare) and len(n.ops) == 1 and isinstance(n.ops[0], (ast.In, ast.NotIn)) \
+                and isinstance(n.comparators[0], ast.Name) and n.comparators[0].id == container:
+            used.append((n.lineno, ast.unparse(n.left), isinstance(n.left, ast.Name)))
+    if not appended:
+        problems.append((fi.node.lineno, f"no `{record_var} = {record_var} + (key,)` found"))
+    keys = {k for _, k, _ in appended}
+    if len(keys) > 1:
+        problems.append((appended[0][0], f"several different keys are recorded: {sorted(keys)}"))
+    for ln, k, is_name in appended:
+        if not is_name:
+            problems.append((ln, f"the recorded key `{k}` is not a plain name"))
+    for ln, k, is_name in used:
+        if k not in keys:
+            problems.append((ln, f"`{container}` is accessed with `{k}` but the record path holds `{sorted(keys)}`"))
+    # the key must be bound exactly once before use
+    for k in keys:
+        binds = [n.lineno for n in ast.walk(fi.node) if isinstance(n, ast.Assign) and any(isinstance(t, ast.Name) and t.id == k for t in n.targets)]
+        if len(binds) != 1:
+            problems.append((fi.node.lineno, f"`{k}` is bound {len(binds)} times"))
+    if problems:
+        why = "; ".join(f"line {ln}: {msg}" for ln, msg in problems[:6])
+        return dict(name=name, status="refuted", backend="frame(ast)", time_s=time.time() - t0, reason=why, property_level=False,
+                    function=fi.describe(), model=why)
+    return dict(name=name, status="discharged", backend="frame(ast)", time_s=time.time() - t0, property_level=False,
+                reason=f"every access to `{container}` uses the key recorded in `{record_var}` ({sorted(keys)})", function=fi.describe())
